@@ -670,17 +670,12 @@ const NLEN: usize = size_of::<SockAddrStorage>();
 
 impl RecvMsgMultiResultImpl {
     unsafe fn new(buffer: BufferRef, clen: usize) -> Self {
-        assert!(buffer.len() >= size_of::<io_uring_recvmsg_out>());
-        let header = unsafe {
-            buffer
-                .as_init()
-                .as_ptr()
-                .cast::<io_uring_recvmsg_out>()
-                .read_unaligned()
-        };
-        let total_len =
-            size_of::<io_uring_recvmsg_out>() + NLEN + clen + header.payloadlen as usize;
-        assert!(buffer.len() >= total_len);
+        // The header, the name area and the control area are always present.
+        // `payloadlen` is the length of the datagram: with MSG_TRUNC it exceeds
+        // what was stored when the datagram did not fit, so it is not a bound
+        // on the buffer; the payload is whatever follows the control area.
+        let fixed_len = size_of::<io_uring_recvmsg_out>() + NLEN + clen;
+        assert!(buffer.len() >= fixed_len);
         Self { buffer, clen }
     }
 
